@@ -181,7 +181,7 @@ type env struct {
 		BeginBlock(context.Context) error
 	}
 	cons     [nVals]sdk.ConsAddress
-	thorough bool
+	rich     bool // richer alphabet: SJail for every validator, SchedRaise, two RaiseMin, two Adv2000
 	maxBig   int
 	maxBigPos int // Adv2000 only among the first maxBigPos operations of a path
 	maxRaise int
@@ -607,7 +607,7 @@ func (e *env) ops(n *explore.Node) []explore.Op {
 			add(fmt.Sprintf("Unjail(v%d)", v), func(ctx *sdk.Context, g *ghost) *explore.Fail { return e.unjail(ctx, g, v) })
 		} else {
 			add(fmt.Sprintf("Jail(v%d)", v), func(ctx *sdk.Context, g *ghost) *explore.Fail { return e.jail(ctx, g, v) })
-			if e.thorough || v < 2 {
+			if e.rich || v < 2 {
 				add(fmt.Sprintf("SJail(v%d)", v), func(ctx *sdk.Context, g *ghost) *explore.Fail { return e.sjail(ctx, g, v) })
 			}
 		}
@@ -629,7 +629,7 @@ func (e *env) ops(n *explore.Node) []explore.Op {
 			}
 			return nil
 		})
-		if e.thorough {
+		if e.rich {
 			add("SchedRaise", func(ctx *sdk.Context, g *ghost) *explore.Fail {
 				g.Raises++
 				_ = e.propose(ctx, versions[mi+1], uint64(ctx.BlockHeight()+3))
@@ -696,7 +696,7 @@ func (e *env) hash(n *explore.Node) string {
 // ---------------------------------------------------------------------------
 // one job = one world
 
-func newEnv(r *report.Run, j job) *env {
+func newEnv(r *report.Run, j job, rich bool) *env {
 	cfg := world.Config{}
 	for _, s := range j.Stakes {
 		cfg.Stakes = append(cfg.Stakes, world.StakesOf(s * stakeUnit)[0])
@@ -709,7 +709,7 @@ func newEnv(r *report.Run, j job) *env {
 		cfg.ValAddrs = append(cfg.ValAddrs, sdk.AccAddress(b))
 	}
 	w := world.New(cfg)
-	e := &env{w: w, r: r, j: j, keyed: len(j.Addrs) == 0, thorough: r.Thorough()}
+	e := &env{w: w, r: r, j: j, keyed: len(j.Addrs) == 0, rich: rich}
 	e.msg = valsetkeeper.NewMsgServerImpl(w.App.ValsetKeeper)
 	e.gov = valsetmodule.NewValsetProposalHandler(w.App.ValsetKeeper)
 	m, ok := w.App.ModuleManager.Modules[vtypes.ModuleName].(interface {
@@ -739,8 +739,8 @@ func newEnv(r *report.Run, j job) *env {
 		}
 	}
 	e.maxBig, e.maxBigPos, e.maxRaise = 1, 2, 1
-	if e.thorough {
-		e.maxBig, e.maxBigPos, e.maxRaise = 2, 4, 2
+	if e.rich {
+		e.maxBig, e.maxRaise = 2, 2
 	}
 	e.maxBigPos = envInt("VERIF_C12_BIGPOS", e.maxBigPos)
 	var as []string
@@ -865,6 +865,7 @@ type item struct {
 	Depth  int     `json:"depth"`
 	LDepth int     `json:"ldepth"` // depth of the ladder exploration, 0 = none
 	KMax   int     `json:"kmax"`   // ladder seeds 1..KMax
+	Rich   bool    `json:"rich"`   // rich alphabet
 	Weight float64 `json:"weight"` // estimated relative cost (budget share)
 }
 
@@ -877,10 +878,12 @@ func envInt(name string, def int) int {
 
 // items lists the work of a tier, most expensive first.
 //
-//	quick:    every job to depth 4; ladder (depth 3) on the multi-comma and keyed jobs
-//	thorough: every job to depth 4, the (60,20,10,10) jobs with the comma address
-//	          in the 10 % slot to depth 5, the three jobs of address group 1
-//	          (byte 0 patterns) to depth 6 in 16 sub-shards; ladder depth 4
+//	quick:    every job to depth 4 (base alphabet); ladder (depth 3) on the
+//	          multi-comma and keyed jobs
+//	thorough: every job (all 84 address patterns) to depth 4 (base alphabet);
+//	          deep jobs on the byte-0 address group: (60,20,10,10) to depth 6
+//	          (base alphabet, 16 sub-shards), (30,30,30,10) and (1,1,1,1) to
+//	          depth 5 with the rich alphabet (8 sub-shards each); ladder depth 4
 func items(thorough bool) []item {
 	var out []item
 	for ji, j := range jobs(thorough) {
@@ -889,6 +892,7 @@ func items(thorough bool) []item {
 		if ladderJob {
 			it.LDepth, it.KMax = 3, 4
 		}
+		cost := 1.0
 		if thorough {
 			if ladderJob {
 				it.LDepth = 4
@@ -897,18 +901,14 @@ func items(thorough bool) []item {
 				}
 			}
 			switch {
+			case j.Name == "p0.r0.s60-20-10-10":
+				it.Depth, it.NSub, cost = 6, 16, 49
 			case strings.HasPrefix(j.Name, "p0.r0."):
-				it.Depth, it.NSub = 6, 16
-			case strings.Contains(j.Name, ".r0.s60-"):
-				it.Depth, it.NSub = 5, 2
+				it.Depth, it.NSub, it.Rich, cost = 5, 8, true, 19
 			}
 		}
 		it.Depth = envInt("VERIF_C12_DEPTH", it.Depth)
 		it.NSub = envInt("VERIF_C12_NSUB", it.NSub)
-		cost := 1.0
-		for d := 4; d < it.Depth; d++ {
-			cost *= 7
-		}
 		it.Weight = cost/float64(it.NSub) + 0.3
 		if it.LDepth > 0 {
 			it.Weight += 0.5
@@ -951,7 +951,7 @@ func runItem(r *report.Run, it item, deadline time.Time) {
 	thorough := r.Thorough()
 	js := jobs(thorough)
 	j := js[it.Job]
-	e := newEnv(r, j)
+	e := newEnv(r, j, it.Rich)
 	setRule(r)
 	t0 := time.Now()
 	mainSpec, ladderSpec, f := e.specs(it, deadline)
@@ -1004,9 +1004,9 @@ func runItem(r *report.Run, it item, deadline time.Time) {
 func setRule(r *report.Run) {
 	depth, ldepth := "4", "3"
 	if r.Thorough() {
-		depth, ldepth = "4 (5 for the (60,20,10,10) jobs with the 0x2c address in the 10 % slot, 6 for the three jobs of the byte-0 address group)", "4"
+		depth, ldepth = "4 (byte-0 address group: depth 6 for (60,20,10,10), depth 5 with the rich alphabet for the other two stake vectors)", "4"
 	}
-	r.Rule = fmt.Sprintf("per (address set of 4 operator addresses, stake vector): BFS to depth %s from three initial nodes at block 2999 (keep-alives expiring at 3009; staggered 3009/3009/3011/3010; v3 jailed since block 2990) and, for the multi-comma and keyed jobs, to depth %s from ladder seeds (v3 jailed 1..k times in succession, k <= 4 or 6) over KeepAlive(v,{min,below,above}) through the real message server (signed txs for the keyed runs), Jail(v) (valset keeper), SJail(v) (slashing keeper), Unjail(v) (slashing keeper as MsgUnjail), Adv1, AdvTo10 (through the next liveness check), Adv31, Adv2000 (at most 1 (thorough 2) per path, among the first 2 (thorough 4) operations), SJail for v0,v1 only in quick, RaiseMin/LowerMin/SchedRaise through the valset governance handler; every block runs the staking end-blocker, the valset EndBlock and the valset BeginBlock of the real application and the oracle; address sets: base 0x55*20 with byte p set to 0x00/0xff/0x2b/0x2c plus multi-comma addresses, two slot rotations; stake vectors (60,20,10,10),(30,30,30,10),(1,1,1,1) x 10^6 ugrain", depth, ldepth)
+	r.Rule = fmt.Sprintf("per (address set of 4 operator addresses, stake vector): BFS to depth %s from three initial nodes at block 2999 (keep-alives expiring at 3009; staggered 3009/3009/3011/3010; v3 jailed since block 2990) and, for the multi-comma and keyed jobs, to depth %s from ladder seeds (v3 jailed 1..k times in succession, k <= 4 or 6) over KeepAlive(v,{min,below,above}) through the real message server (signed txs for the keyed runs), Jail(v) (valset keeper), SJail(v) (slashing keeper), Unjail(v) (slashing keeper as MsgUnjail), Adv1, AdvTo10 (through the next liveness check), Adv31, Adv2000 (only among the first 2 operations of a path), RaiseMin (once)/LowerMin through the valset governance handler; base alphabet: SJail for v0,v1 only, one Adv2000; rich alphabet: SJail for every validator, SchedRaise, two RaiseMin, two Adv2000; every block runs the staking end-blocker, the valset EndBlock and the valset BeginBlock of the real application and the oracle; address sets: base 0x55*20 with byte p set to 0x00/0xff/0x2b/0x2c plus multi-comma addresses, two slot rotations; stake vectors (60,20,10,10),(30,30,30,10),(1,1,1,1) x 10^6 ugrain", depth, ldepth)
 	r.Assumptions = []string{
 		"block time fixed at 2 s; only the staking end-blocker and the valset begin/end-block run per block (the other modules' end-blockers do not touch keep-alive, grace or jail-log state)",
 		"keep-alive boundary: a validator must be jailed only at checks with height > aliveUntil and must never be jailed at checks with height < aliveUntil; height == aliveUntil is left open (weaker reading of 'longer than the lifetime')",
@@ -1146,7 +1146,7 @@ func replay(r *report.Run, file string) {
 	for _, p := range m["path"].([]interface{}) {
 		path = append(path, p.(string))
 	}
-	e := newEnv(r, j)
+	e := newEnv(r, j, true) // the rich alphabet is a superset
 	setRule(r)
 	it := item{NSub: 1, Depth: len(path)}
 	if kind == "ladder" && len(path) > 0 {
